@@ -101,3 +101,22 @@ pub fn disasraw(rest: &str) -> String {
     }
     format!("ok {}", hex(m.disassemble().as_bytes()))
 }
+
+/// `loadasmw <hexbytes>`: the same through `dr::load_words` (whole words only)
+pub fn loadasmw(rest: &str) -> String {
+    use rspirv::binary::Assemble;
+    let bytes = match crate::util::try_unhex(rest.trim()) {
+        Some(b) if b.len() % 4 == 0 => b,
+        _ => return "bad-request".to_string(),
+    };
+    let words: Vec<u32> = bytes.chunks(4).map(|b| u32::from_le_bytes([b[0], b[1], b[2], b[3]])).collect();
+    match rspirv::dr::load_words(&words) {
+        Ok(m) => {
+            let mut out = vec![];
+            m.assemble_into(&mut out);
+            let ws: Vec<String> = out.iter().map(|w| w.to_string()).collect();
+            format!("ok {}", ws.join(","))
+        }
+        Err(e) => format!("err {}", hex(format!("{}", e).as_bytes())),
+    }
+}
